@@ -3,16 +3,16 @@ import Aiortc.Lemmas.C05.V2Chunk
 namespace Aiortc.Sctp.V2
 open Aiortc.Gen Aiortc.Sctp.Wire
 set_option linter.unusedSimpArgs false
-variable {U : List Nat} {n : Nat}
+variable {U : List Nat}
 
-theorem WF.popTask {e : Ep} (h : WF U n e) {t : Task} {rest : List Task} (ht : e.tasks = t :: rest) :
-    WF U n { e with tasks := rest } ∧ TaskOk t :=
-  ⟨⟨h.net, h.ch, h.tx, h.rx, h.rcReq, h.rcResp, h.sack, h.room, h.ids, h.cap, h.tm1, h.tm2,
+theorem WF.popTask {e : Ep} (h : WF U e) {t : Task} {rest : List Task} (ht : e.tasks = t :: rest) :
+    WF U { e with tasks := rest } ∧ TaskOk t :=
+  ⟨⟨h.net, h.ch, h.tx, h.rx, h.rcReq, h.rcResp, h.sack, h.ids, h.cap, h.tm1, h.tm2,
     fun x hx => h.tasks x (by rw [ht]; simp [hx]), h.rcr⟩, h.tasks t (by rw [ht]; simp)⟩
 
 /-- A queued task never raises (what was queued is serialisable: clause `tasks` of the invariant). -/
-theorem wp_runTask {A} {Q : Unit → St → Prop} {e : Ep} {l : List Out} (h : WF U n e)
-    (hq : ∀ e' l', WF U n e' → e'.rwnd = e.rwnd → e'.inStreams = e.inStreams → Q () (e', l')) :
+theorem wp_runTask {A} {Q : Unit → St → Prop} {e : Ep} {l : List Out} (h : WF U e)
+    (hq : ∀ e' l', WF U e' → e'.rwnd = e.rwnd → e'.inStreams = e.inStreams → Q () (e', l')) :
     wp A runTask Q (e, l) := by
   unfold runTask
   simp only [wp_bind, wp_getE]
@@ -49,11 +49,11 @@ theorem wp_runTask {A} {Q : Unit → St → Prop} {e : Ep} {l : List Out} (h : W
         exact hq _ _ hw1 rfl rfl
 
 /-- T1 expiry of an ARMED timer (`e.t1 = true`: asyncio only calls the handle of a timer that was started). -/
-theorem wp_fire_t1 {A} {Q : Unit → St → Prop} {e : Ep} {l : List Out} (h : WF U n e) (ht : e.t1 = true)
-    (hq : ∀ e' l', WF U n e' → e'.rwnd = e.rwnd → e'.inStreams = e.inStreams → Q () (e', l')) :
+theorem wp_fire_t1 {A} {Q : Unit → St → Prop} {e : Ep} {l : List Out} (h : WF U e) (ht : e.t1 = true)
+    (hq : ∀ e' l', WF U e' → e'.rwnd = e.rwnd → e'.inStreams = e.inStreams → Q () (e', l')) :
     wp A (handle (.fire "t1")) Q (e, l) := by
   obtain ⟨c, hcs, hcr⟩ := h.tm1 ht
-  have hw0 : WF U n { e with t1Failures := e.t1Failures + 1, t1 := false } := by
+  have hw0 : WF U { e with t1Failures := e.t1Failures + 1, t1 := false } := by
     have := h.t1Off e.t1Chunk
     wf_same2 this
   simp only [handle, wp_bind, wp_modE, wp_getE]
@@ -64,14 +64,14 @@ theorem wp_fire_t1 {A} {Q : Unit → St → Prop} {e : Ep} {l : List Out} (h : W
   · simp only [hcs, wp_bind, wp_queueTask, wp_modE, wp_emit]
     refine hq _ _ ?_ rfl rfl
     have h1 := hw0.pushTask (t := .resend c) hcr
-    exact ⟨h1.net, h1.ch, h1.tx, h1.rx, h1.rcReq, h1.rcResp, h1.sack, h1.room, h1.ids, h1.cap,
+    exact ⟨h1.net, h1.ch, h1.tx, h1.rx, h1.rcReq, h1.rcResp, h1.sack, h1.ids, h1.cap,
       (fun _ => ⟨c, rfl, hcr⟩), h1.tm2, h1.tasks, h1.rcr⟩
 
-theorem wp_fire_t2 {A} {Q : Unit → St → Prop} {e : Ep} {l : List Out} (h : WF U n e) (ht : e.t2 = true)
-    (hq : ∀ e' l', WF U n e' → e'.rwnd = e.rwnd → e'.inStreams = e.inStreams → Q () (e', l')) :
+theorem wp_fire_t2 {A} {Q : Unit → St → Prop} {e : Ep} {l : List Out} (h : WF U e) (ht : e.t2 = true)
+    (hq : ∀ e' l', WF U e' → e'.rwnd = e.rwnd → e'.inStreams = e.inStreams → Q () (e', l')) :
     wp A (handle (.fire "t2")) Q (e, l) := by
   obtain ⟨c, hcs, hcr⟩ := h.tm2 ht
-  have hw0 : WF U n { e with t2Failures := e.t2Failures + 1, t2 := false } := by
+  have hw0 : WF U { e with t2Failures := e.t2Failures + 1, t2 := false } := by
     have := h.t2Off e.t2Chunk
     wf_same2 this
   simp only [handle, wp_bind, wp_modE, wp_getE]
@@ -82,14 +82,14 @@ theorem wp_fire_t2 {A} {Q : Unit → St → Prop} {e : Ep} {l : List Out} (h : W
   · simp only [hcs, wp_bind, wp_queueTask, wp_modE, wp_emit]
     refine hq _ _ ?_ rfl rfl
     have h1 := hw0.pushTask (t := .resend c) hcr
-    exact ⟨h1.net, h1.ch, h1.tx, h1.rx, h1.rcReq, h1.rcResp, h1.sack, h1.room, h1.ids, h1.cap,
+    exact ⟨h1.net, h1.ch, h1.tx, h1.rx, h1.rcReq, h1.rcResp, h1.sack, h1.ids, h1.cap,
       h1.tm1, (fun _ => ⟨c, rfl, hcr⟩), h1.tasks, h1.rcr⟩
 
-theorem wp_fire_reconfig {A} {Q : Unit → St → Prop} {e : Ep} {l : List Out} (h : WF U n e)
-    (hq : ∀ e' l', WF U n e' → e'.rwnd = e.rwnd → e'.inStreams = e.inStreams → Q () (e', l')) :
+theorem wp_fire_reconfig {A} {Q : Unit → St → Prop} {e : Ep} {l : List Out} (h : WF U e)
+    (hq : ∀ e' l', WF U e' → e'.rwnd = e.rwnd → e'.inStreams = e.inStreams → Q () (e', l')) :
     wp A (handle (.fire "reconfig")) Q (e, l) := by
   simp only [handle, wp_bind, wp_modE, wp_getE]
-  have hw0 : WF U n { e with rcTimer := false } := by wf_same2 h
+  have hw0 : WF U { e with rcTimer := false } := by wf_same2 h
   split
   · rename_i param hp
     split
@@ -104,8 +104,8 @@ theorem wp_fire_reconfig {A} {Q : Unit → St → Prop} {e : Ep} {l : List Out} 
     exact hq _ _ hw0 rfl rfl
 
 /-- T3 expiry (`_t3_expired`). -/
-theorem wp_fire_t3 {A} {Q : Unit → St → Prop} {e : Ep} {l : List Out} (h : WF U n e)
-    (hq : ∀ e' l', WF U n e' → e'.rwnd = e.rwnd → e'.inStreams = e.inStreams → Q () (e', l')) :
+theorem wp_fire_t3 {A} {Q : Unit → St → Prop} {e : Ep} {l : List Out} (h : WF U e)
+    (hq : ∀ e' l', WF U e' → e'.rwnd = e.rwnd → e'.inStreams = e.inStreams → Q () (e', l')) :
     wp A (handle (.fire "t3")) Q (e, l) := by
   simp only [handle, wp_bind, wp_setE, wp_getE, wp_queueTask]
   exact hq _ _ ((h.setTx (Tx.t3Expired_ok e.tx h.tx (1000 * e.now))).pushTask trivial) rfl rfl
@@ -113,8 +113,8 @@ theorem wp_fire_t3 {A} {Q : Unit → St → Prop} {e : Ep} {l : List Out} (h : W
 /-! ## application inputs -/
 
 /-- `transport.stop()`. -/
-theorem wp_stop {A} {Q : Unit → St → Prop} {e : Ep} {l : List Out} (h : WF U n e)
-    (hq : ∀ e' l', WF U n e' → e'.rwnd = e.rwnd → e'.inStreams = e.inStreams → Q () (e', l')) :
+theorem wp_stop {A} {Q : Unit → St → Prop} {e : Ep} {l : List Out} (h : WF U e)
+    (hq : ∀ e' l', WF U e' → e'.rwnd = e.rwnd → e'.inStreams = e.inStreams → Q () (e', l')) :
     wp A (handle .stop) Q (e, l) := by
   simp only [handle, wp_bind, wp_getE]
   have hfin : ∀ l1, wp A (setState .closed) Q ({ e with registered := false }, l1) := fun l1 =>
@@ -128,9 +128,9 @@ theorem wp_stop {A} {Q : Unit → St → Prop} {e : Ep} {l : List Out} (h : WF U
     exact hfin _
 
 /-- `channel.bufferedAmountLowThreshold = v` on an existing channel object. -/
-theorem wp_threshold {A} {i : Nat} {v : Int} {Q : Unit → St → Prop} {e : Ep} {l : List Out} (h : WF U n e)
+theorem wp_threshold {A} {i : Nat} {v : Int} {Q : Unit → St → Prop} {e : Ep} {l : List Out} (h : WF U e)
     (hi : i < e.chans.length)
-    (hq : ∀ e' l', WF U n e' → e'.rwnd = e.rwnd → e'.inStreams = e.inStreams → Q () (e', l')) :
+    (hq : ∀ e' l', WF U e' → e'.rwnd = e.rwnd → e'.inStreams = e.inStreams → Q () (e', l')) :
     wp A (handle (.threshold i v)) Q (e, l) := by
   obtain ⟨c, hc⟩ := getElem?_of_lt hi
   simp only [handle]
@@ -141,9 +141,9 @@ theorem wp_threshold {A} {i : Nat} {v : Int} {Q : Unit → St → Prop} {e : Ep}
 
 /-- `channel.close()` on an existing channel object; the `KeyError` of `self._data_channels.pop(channel.id)` needs the
 channel to be registered when the association is not established (`hreg`). -/
-theorem wp_close {A} {i : Nat} {Q : Unit → St → Prop} {e : Ep} {l : List Out} (h : WF U n e)
+theorem wp_close {A} {i : Nat} {Q : Unit → St → Prop} {e : Ep} {l : List Out} (h : WF U e)
     (hi : i < e.chans.length) (hk : A "KeyError" ∨ e.assoc = .established)
-    (hq : ∀ e' l', WF U n e' → e'.rwnd = e.rwnd → e'.inStreams = e.inStreams → Q () (e', l')) :
+    (hq : ∀ e' l', WF U e' → e'.rwnd = e.rwnd → e'.inStreams = e.inStreams → Q () (e', l')) :
     wp A (handle (.close i)) Q (e, l) := by
   simp only [handle]
   refine wp_dcClose h hi hk ?_
@@ -168,11 +168,11 @@ theorem ChansOk.pushQ {chans dcs q rcq} (h : ChansOk U chans dcs q rcq) {i ppid 
     · exact h.qPpid x hx
     · simp at hx; subst hx; exact hp
 
-theorem WF.pushQ {e : Ep} (h : WF U n e) {i ppid : Nat} {data : Bytes}
+theorem WF.pushQ {e : Ep} (h : WF U e) {i ppid : Nat} {data : Bytes}
     (hi : i < e.chans.length) (hp : ppid < 4294967296)
     (hpr : ∀ c, e.chans[i]? = some c → ppid = WEBRTC_DCEP ∨ c.Reliable ∨ ∃ s, c.id = some s ∧ s ∈ U) :
-    WF U n { e with dcQueue := e.dcQueue ++ [(i, ppid, data)] } :=
-  ⟨h.net, h.ch.pushQ hi hp hpr, h.tx, h.rx, h.rcReq, h.rcResp, h.sack, h.room, h.ids, h.cap, h.tm1, h.tm2,
+    WF U { e with dcQueue := e.dcQueue ++ [(i, ppid, data)] } :=
+  ⟨h.net, h.ch.pushQ hi hp hpr, h.tx, h.rx, h.rcReq, h.rcResp, h.sack, h.ids, h.cap, h.tm1, h.tm2,
    h.tasks, h.rcr⟩
 
 /-- The channel may carry user messages: it is reliable, or its stream is one of `U`. -/
@@ -181,8 +181,8 @@ def SendOk (U : List Nat) (e : Ep) (i : Nat) : Prop :=
 
 /-- `channel.send(data)` on an existing channel object. -/
 theorem wp_send {A} {i : Nat} {isStr : Bool} {data : Bytes} {Q : Unit → St → Prop} {e : Ep} {l : List Out}
-    (h : WF U n e) (hi : i < e.chans.length) (hs : SendOk U e i)
-    (hq : ∀ e' l', WF U n e' → e'.rwnd = e.rwnd → e'.inStreams = e.inStreams → Q () (e', l')) :
+    (h : WF U e) (hi : i < e.chans.length) (hs : SendOk U e i)
+    (hq : ∀ e' l', WF U e' → e'.rwnd = e.rwnd → e'.inStreams = e.inStreams → Q () (e', l')) :
     wp A (handle (.send i isStr data)) Q (e, l) := by
   obtain ⟨c, hc⟩ := getElem?_of_lt hi
   simp only [handle, wp_bind, wp_chanGet hc]
